@@ -159,3 +159,24 @@ pub fn quiet_panics() {
 pub fn verif_root() -> String {
     std::env::var("VERIF_ROOT").unwrap_or_else(|_| "/verif".to_string())
 }
+
+/// await a future catching a Rust panic inside it
+pub async fn guarded_async<T>(f: impl std::future::Future<Output = T>) -> Result<T, String> {
+    use std::task::Poll;
+    let mut f = Box::pin(f);
+    std::future::poll_fn(move |cx| {
+        let r = panic::catch_unwind(AssertUnwindSafe(|| f.as_mut().poll(cx)));
+        match r {
+            Ok(Poll::Ready(v)) => Poll::Ready(Ok(v)),
+            Ok(Poll::Pending) => Poll::Pending,
+            Err(e) => Poll::Ready(Err(if let Some(s) = e.downcast_ref::<&str>() {
+                s.to_string()
+            } else if let Some(s) = e.downcast_ref::<String>() {
+                s.clone()
+            } else {
+                "panic".to_string()
+            })),
+        }
+    })
+    .await
+}
